@@ -273,7 +273,7 @@ static void hmac_case(const args_t *a, long idx, size_t keylen, size_t mlen)
 #endif
     /* incremental, random chunking, key presented at a different address for finalize */
     {
-        uint8_t keycopy[512];
+        uint8_t keycopy[2048];
         size_t pos = 0;
         if (keylen) memcpy(keycopy, key, keylen);
         MSAN_POISON(&st, sizeof st);
@@ -321,6 +321,10 @@ int main(int argc, char **argv)
         for (i = 0; i <= N; ++i)
             for (j = 0; j < BC_N * reps; ++j, ++idx)
                 if (mine(&a, idx)) hash_case(&a, idx, (size_t)i, (int)(j % BC_N), 0);
+        for (i = 0; i < 8 * 3; ++i, ++idx) {       /* 2^k-1, 2^k, 2^k+1 for k = 9..16 */
+            size_t len = ((size_t)1 << (9 + i / 3)) + (size_t)(i % 3) - 1;
+            if (mine(&a, idx)) hash_case(&a, idx, len, (int)(i % BC_N), 1);
+        }
         for (i = 0; i < a.p3; ++i, ++idx) {
             rng_t r = rng_for(a.seed, 0x10E6, (uint64_t)i);
             size_t len = (size_t)N + 1 + rnd(&r, i % 4 == 0 ? 65536 : 3000);
@@ -339,6 +343,9 @@ int main(int argc, char **argv)
         for (i = 0; i <= K; ++i)
             for (j = 0; j < (long)(sizeof ml / sizeof ml[0]); ++j, ++idx)
                 if (mine(&a, idx)) hmac_case(&a, idx, (size_t)i, ml[j]);
+        { static const unsigned SP[] = {255, 256, 257, 511, 512, 513, 1023, 1024, 1025, 4095, 4096, 4097, 16384, 65535, 65536, 65537};
+          for (i = 0; i < 16; ++i, ++idx) if (mine(&a, idx)) hmac_case(&a, idx, (size_t)(i * 13 % 130), SP[i]);          /* special message lengths */
+          for (i = 0; i < 9; ++i, ++idx) if (mine(&a, idx)) hmac_case(&a, idx, SP[i], (size_t)(i * 7 % 70)); }          /* special key lengths (hashed keys) */
         for (i = 0; i < a.p3; ++i, ++idx) {
             rng_t r = rng_for(a.seed, 0x4AC2, (uint64_t)i);
             size_t kl = rnd(&r, 4) == 0 ? 60 + rnd(&r, 10) : rnd(&r, 300), mlen = rnd(&r, 4096);
